@@ -73,7 +73,8 @@ func (g *gen) Add(name string, typs []types.Type) (string, error) {
 	retSig = derive.RenameBlankIdentifierWith(retSig, "innerParam_")
 	newTup := types.NewTuple(types.NewVar(retVar.Pos(), retVar.Pkg(), retVar.Name(), retSig))
 	sig = types.NewSignature(sig.Recv(), sig.Params(), newTup, sig.Variadic())
-	return g.SetFuncName(name, derive.RenameBlankIdentifier(sig))
+	// the parameter of the function and the parameters of the function it returns are going to be the parameters of one function
+	return g.SetFuncName(name, derive.RenameClashingIdentifierWith(sig, "param_", retSig.Params(), retSig.Results()))
 }
 
 func (g *gen) Generate(typs []types.Type) error {
